@@ -56,14 +56,15 @@ func H_C12_plain() {
 	n := verif.Choose("rows", maxRows(2, 2)+1)
 	RegisterFunction("vid", idFunc)
 	RegisterFunction("vnul", func(q *Query, cur Map, o *FunctionOptions, args []any) (any, error) { return nil, nil })
-	hasAsync := false
+	asyncCalls := 0
 	for i := 0; i+5 <= len(c12Queries[qi]); i++ {
 		if c12Queries[qi][i:i+5] == "ASYNC" {
-			hasAsync = true
+			asyncCalls++
 		}
 	}
-	if hasAsync && n > 1+verif.Tier() {
-		verif.Assume(false) // queries with goroutines: one row (two in the thorough tier)
+	hasAsync := asyncCalls > 0
+	if hasAsync && (n > 1+verif.Tier() || (asyncCalls > 1 && n > 1)) {
+		verif.Assume(false) // queries with goroutines: one row (two in the thorough tier when there is a single ASYNC call)
 	}
 	verif.Opt("maporder", 3)
 	verif.Opt("schedules", 1)
